@@ -1657,3 +1657,9 @@ static int replay_alloc(hctx* h, const h_line* l) {
 }
 
 const h_component comp_alloc = { "alloc", gen_alloc, replay_alloc };
+
+/* The arena and buffer streams alone: every property whose code keeps parsed metadata or page bytes in an arena / growable
+ * buffer (C04, C08, C13, C17) depends on allocations staying inside their block and apart from one another; this light
+ * component gives their checks the exact arena / buffer tie without the fault scenarios of C19. */
+static void gen_arena_only(hctx* h) { run_kind(h, "arena", gen_arena); run_kind(h, "buf", gen_buf); }
+const h_component comp_arena = { "arena", gen_arena_only, replay_alloc };
